@@ -30,7 +30,7 @@ ANCHORS = [
     "job_shop_lib.dispatching._ready_operation_filters:filter_non_immediate_operations",
 ]
 ASSUMPTIONS = ["filters combined with zero durations are out of the property's scope"]
-REQUIRED_COUNTERS = {"clock_steps_checked": 1000, "twin_clock_checks": 300,
+REQUIRED_COUNTERS = {"episodes_after_reset": 50, "disturbing_min_start_time_calls": 100, "clock_steps_checked": 1000, "twin_clock_checks": 300,
                      "completion_checks": 50}
 WORKERS = {"quick": 1, "thorough": 14}
 
@@ -48,6 +48,7 @@ def gen_cases(ctx):
         if filt and c["filter"] is None:
             c["filter"] = gen.gen_filter_spec(rng, allow_none=False)
         c["kind"] = "history"
+        c["episodes"] = rng.choice([1, 1, 2, 3])
         yield c
     for i in range(ctx.scale(150, 4000)):
         inst = gen.gen_instance(rng, rng.choice(gen.POSITIVE_CLASSES), max_jobs=3,
@@ -73,7 +74,25 @@ def one_history(ctx, case, explicit=None):
     completed = set(o.operation_id for o in d.completed_operations())
     advances = 0
     k = 0
-    while not run.done():
+    episodes_left = (case.get("episodes", 1) - 1) if explicit is None else 0
+    while not run.done() or episodes_left > 0:
+        if run.done():
+            # finish of an episode: check it, then reuse the same dispatcher after reset()
+            ctx.count("completion_checks")
+            if d.current_time() != r.makespan() or d.schedule.makespan() != r.makespan():
+                ctx.violation("c06_clock_not_makespan_at_completion",
+                              {"clock": d.current_time(), "schedule_makespan": d.schedule.makespan(),
+                               "makespan": r.makespan(), "history": list(r.history), "episode": "not last"})
+            episodes_left -= 1
+            d.reset(); r.reset()
+            if twin is not None:
+                twin.reset()
+            ctx.count("episodes_after_reset")
+            last = d.current_time()
+            completed = set(o.operation_id for o in d.completed_operations())
+            if last != 0 or completed:
+                ctx.violation("c06_clock_or_completed_set_not_reset", {"clock": last, "completed": sorted(completed)})
+            continue
         if explicit is not None:
             o, m = explicit[k]
         else:
@@ -83,6 +102,14 @@ def one_history(ctx, case, explicit=None):
         # warm the caches that hold pre-state answers
         d.current_time(); d.completed_operations()
         run.dispatch(o, m)
+        if rng.random() < 0.3:
+            # a public query with its own argument must not disturb the clock
+            pool = r.unscheduled()
+            sub = rng.sample(pool, rng.randint(1, len(pool))) if pool else []
+            got = d.min_start_time([run.op(x) for x in sub])
+            ctx.count("disturbing_min_start_time_calls")
+            if got != r.min_start(sub):
+                ctx.violation("c06_min_start_time_of_sublist", {"ops": sub, "got": got, "want": r.min_start(sub)})
         now = d.current_time()
         ctx.count("clock_steps_checked")
         if now < last:
@@ -117,7 +144,8 @@ def one_history(ctx, case, explicit=None):
                               {"history": list(r.history), "filter": run.filter_names})
         last, completed = now, comp
     ctx.count("completion_checks")
-    if d.current_time() != d.schedule.makespan() or d.current_time() != r.makespan():
+    if d.current_time() != d.schedule.makespan() or d.current_time() != r.makespan() \
+            or d.schedule.makespan() != r.makespan():
         ctx.violation("c06_clock_not_makespan_at_completion",
                       {"clock": d.current_time(), "makespan": r.makespan(),
                        "history": list(r.history)})
